@@ -156,17 +156,14 @@ def flatten_order(rep, idx):
                              ("FieldActionArray", ["enumerate(self._fields)", "enumerate(self)"])):
         fi = idx.find_func(f"{cname}.flatten")
         rep.analysed(fi.site)
-        body = [s for s in fi.node.body if not (isinstance(s, ast.Expr) and isinstance(s.value, ast.Constant))]
-        ok_shape = len(body) == 1 and isinstance(body[0], ast.For)
-        if not ok_shape:
-            rep.unk("C11.6", fi.site, "flatten() shape", "body is not a single for loop")
-            continue
-        loop = body[0]
         c = get_fn(idx, fi)
-        L = [x for x in c.t.loops.values() if x.lineno == loop.lineno]
-        if len(L) != 1:
-            rep.unk("C11.6", fi.site, "flatten() loop", "cannot identify the loop symbolically")
+        # the outer loop: the first generation loop of every yield (helpers reached by `yield from` are walked in place)
+        firsts = {next((fr[1] for fr in gen if fr[0] == 'for'), None) for v, frm, gen, ln in c.t.yields if not frm}
+        if c.t.unsupported or len(firsts) != 1 or None in firsts or any(frm for v, frm, gen, ln in c.t.yields):
+            rep.unk("C11.6", fi.site, "flatten() shape", "the yields are not all inside one loop over the collection's fields"
+                    + (f" ({c.t.unsupported[0][1]})" if c.t.unsupported else ""))
             continue
+        L = [c.t.loops[next(iter(firsts))]]
         L = L[0]
         it = c.norm(L.iter)
         wants = [c.parse(x) for x in want_iter]
